@@ -13,8 +13,10 @@ specification's prediction, the moment it discovers it:
 processes under catch_unwind with a location-recording panic hook and compares the observed
 outcome with the specification's prediction; a panic or an abort is not a state of the outcome
 machine.  Thorough adds seeded byte/char mutations of the corpus."""
+import glob
 import json
 import os
+import time
 from vlib import common as C
 
 CORPUS = os.path.join(C.VERIF, "corpus")
@@ -28,8 +30,13 @@ def count_lines(path):
         return sum(1 for _ in f)
 
 
+TIMES = {}
+
+
 def vh_json(args, timeout=3000):
+    t0 = time.time()
     rc, txt = C.run_vh(["total"] + args, timeout=timeout)
+    TIMES["vh total " + args[0]] = round(time.time() - t0, 1)
     try:
         r = json.loads(txt)
     except ValueError:
@@ -52,6 +59,8 @@ def signature(d):
 def run(tier):
     thorough = tier == "thorough"
     chk = C.Check("C03", tier)
+    for old in glob.glob(os.path.join(C.REPLAY, "C03", "C03_%s_*.json" % tier)):
+        os.remove(old)     # replay files of an earlier run of this tier
     out = C.workdir("c03_out")
     env = {"VERIF_OUT": out, "VERIF_SEED": C.seed(), "JAVA_TOOL_OPTIONS": JOPTS}
     stages = {}
@@ -120,6 +129,7 @@ def run(tier):
     cov["stages"] = {k: {f: v[f] for f in ("cases", "runs", "by_outcome", "by_suite", "accepted_programs",
                                            "worker_aborts", "worker_timeouts") if f in v}
                      for k, v in stages.items()}
+    cov["harness_wall_s"] = dict(TIMES)
     cov["error_classes_seen"] = sorted(set().union(*[set(s["error_classes"]) for s in stages.values()]))
     cov["forms"] = gen["forms"]
     cov["forms_never_accepted"] = gen["forms_never_accepted"]
